@@ -590,7 +590,7 @@ def run():
         t0 = time.time()
         try:
             with ThreadPoolExecutor(max_workers=4) as ex:
-                f_lib = ex.submit(run_lib, testbin, env, sd, items, 8 if thorough else 4, 2500)
+                f_lib = ex.submit(run_lib, testbin, env, sd, items, 8 if thorough else 6, 2000)
                 f_srv = ex.submit(run_server, pool, items, 8, 3 + 0.5 * load_factor())
                 nreal = 1500 if thorough else 60
                 pick = rng.sample(items, min(nreal * 2, len(items)))
@@ -601,6 +601,24 @@ def run():
         finally:
             pool.stop()
         vf.log("doors done in %.0fs: lib %d, server %d (%d restarts), run %d, repl %d" % (time.time() - t0, len(lib), len(srv), restarts, len(runs), len(repl)))
+        # ---- 'lib' shares one process between many texts: whatever ended badly there is run again alone, in a fresh process,
+        #      and that observation is the one that counts (state left behind by earlier texts is the driver's, not the text's)
+        byid = dict(items)
+        again = [cid for cid, o in lib.items() if o["trace"] or not o["alive"] or o["signal"] or o["oom"]]
+        interference = []
+        if again:
+            with ThreadPoolExecutor(max_workers=6) as ex:
+                alone = list(ex.map(lambda cid: run_lib(testbin, env, sd, [(cid, byid[cid])], 1, 6000).get(cid), again[:120]))
+            for cid, o in zip(again[:120], alone):
+                if o is None:
+                    raise vf.NoVerdict("in-process driver gave no result for a text run alone")
+                if not (o["trace"] or not o["alive"] or o["signal"]):
+                    interference.append({"id": cid, "shared": {k: lib[cid].get(k) for k in ("kind", "site", "head")}})
+                lib[cid] = o
+        chk.cov["lib_ended_badly_only_in_shared_process"] = len(interference)
+        if interference:
+            chk.notes.append("texts that ended badly only after other texts in the same in-process driver (not counted): %s"
+                             % json.dumps(interference[:5]))
         # ---- whatever panicked in-process / was recovered by the router / killed the server goes through the real binary too
         sus = {}
         for cid, o in list(lib.items()) + list(srv.items()):
@@ -611,46 +629,42 @@ def run():
             esc += sorted(set(sus[k]))[:3]
         esc = [cid for cid in dict.fromkeys(esc)][:90]
         if esc:
-            byid = dict(items)
             e1 = run_real(ego, env, sd, [(cid, byid[cid]) for cid in esc if cid not in runs], "run", 8)
             e2 = run_real(ego, env, sd, [(cid, byid[cid]) for cid in esc if cid not in repl], "repl", 8)
             runs.update(e1)
             repl.update(e2)
-        # ---- F binding: the contract judges every execution
+        # ---- F binding: the contract judges every execution; the same TLC run judges the binding self-test records
         recs, obs_of = [], {}
         cb = {c["id"]: c for c in cases}
         for entry, res in (("lib", lib), ("server", srv), ("run", runs), ("repl", repl)):
             for cid, o in sorted(res.items()):
                 recs.append(_record(cb[cid], entry, o))
                 obs_of[(cid, entry)] = o
-        n, bad, trun = _judge(chk, sd, recs, "contract over %d executions" % len(recs))
-        if n != len(recs):
-            raise vf.NoVerdict("contract judged %d of %d records" % (n, len(recs)))
+        oq = _selftest_sigquit(ego, env, sd)
+        probe = [_record({"id": -1, "cls": ["selftest-sigquit"]}, "run", oq)]
+        for r in [r for r in recs if not (r["trace"] or r["signal"] or not r["alive"])][:40]:
+            for mut in ({"trace": True, "kind": "index", "site": "selftest.site"}, {"alive": False}, {"signal": 11}):
+                x = dict(r, timeout=False, oom=False, id=-2 - len(probe))
+                x.update(mut)
+                probe.append(x)
+        n, bad, trun = _judge(chk, sd, recs + probe, "contract over %d executions (+%d self-test records)" % (len(recs), len(probe)))
+        if n != len(recs) + len(probe):
+            raise vf.NoVerdict("contract judged %d of %d records" % (n, len(recs) + len(probe)))
+        rejected = {b["idx"] for b in bad if b["idx"] > len(recs)}
+        if rejected != set(range(len(recs) + 1, len(recs) + len(probe) + 1)) or len(probe) < 4:
+            raise vf.NoVerdict("binding self-test failed: %d of %d crash records rejected (SIGQUIT observation: %s)" % (len(rejected), len(probe), oq))
+        bad = [b for b in bad if b["idx"] <= len(recs)]
+        if len(bad) == len(recs):
+            raise vf.NoVerdict("the contract rejected every execution")
+        chk.cov["binding_selftest"] = ("%d records of real executions perturbed into a crash (trace / dead process / signal) and one real "
+                                       "`ego run` ended by SIGQUIT (Go trace: %s) were all rejected by the contract, %d of %d real records accepted"
+                                       % (len(probe) - 1, oq["head"][:40], len(recs) - len(bad), len(recs)))
         for b in bad:
             c, o = cb[b["id"]], obs_of[(b["id"], b["entry"])]
             chk.violation(b["key"], "text [%s, %s] ends the host through '%s': %s at %s"
                           % (c["b"], "+".join(c["cls"]), b["entry"], o.get("head") or o.get("kind"), o.get("site")),
                           {"entry": b["entry"], "base": c["b"], "cls": c["cls"], "at": c["at"], "src": c["src"].decode("latin-1"),
                            "observed": {k: v for k, v in o.items() if k != "ms"}})
-        # ---- binding self-test
-        clean = [r for i, r in enumerate(recs) if (i + 1) not in {b["idx"] for b in bad}]
-        probe = []
-        for r in clean[:40]:
-            for mut in ({"trace": True, "kind": "index", "site": "selftest.site"}, {"alive": False}, {"signal": 11}):
-                x = dict(r, timeout=False, oom=False)
-                x.update(mut)
-                probe.append(x)
-        o = _selftest_sigquit(ego, env, sd)
-        probe.append(_record({"id": -1, "cls": ["selftest-sigquit"]}, "run", o))
-        ctl = clean[:40]
-        pn, pbad, _ = _judge(chk, sd, probe + ctl, "binding self-test")
-        rejected = {b["idx"] for b in pbad}
-        if rejected != set(range(1, len(probe) + 1)):
-            raise vf.NoVerdict("binding self-test failed: %d of %d crash records rejected, %d clean records rejected (SIGQUIT observation: %s)"
-                               % (len(rejected & set(range(1, len(probe) + 1))), len(probe), len(rejected - set(range(1, len(probe) + 1))), o))
-        chk.cov["binding_selftest"] = ("%d records of real executions perturbed into a crash (trace / dead process / signal) and one real "
-                                       "`ego run` ended by SIGQUIT (Go trace: %s) were all rejected by the contract; %d unperturbed accepted"
-                                       % (len(probe) - 1, o["head"][:40], len(ctl)))
         # ---- evidence
         ends = {}
         for e in ("lib", "server", "run", "repl"):
